@@ -3,6 +3,7 @@ import OapiVerif.Proofs.GoJsonEnc
 import OapiVerif.Proofs.Form
 import OapiVerif.Gen.C12
 import OapiVerif.Proofs.Bodies
+import OapiVerif.Proofs.RespDefs
 /-!
 C12 — Strict server delivers decoded requests and writes the declared responses.
 
@@ -162,3 +163,25 @@ theorem C12_supported_iff_media_class (E : Env) (ct : Str) (hc : ∀ c, E.isJson
           · rw [if_neg h4]; simp [h, h1, h2, h3, h4]
 
 end OapiVerif.Bodies
+
+namespace OapiVerif.RespDefs
+
+/-- `GenerateResponseDefinitions`: one definition per declared status code, in the same (ascending) order; **no two
+definitions of an operation are the same component type** — the cases of the generated type switch are distinct types, so a
+response object is written with the status code declared for it and not with another one's; and the `Ref` of a definition is
+never anything but the component its own response refers to. For every list of responses. -/
+theorem C12_component_response_used_once (rs : List RIn) :
+    (respDefs rs).map (·.code) = rs.map (·.code) ∧ ((respDefs rs).filterMap (·.ref)).Nodup ∧ Matches rs (respDefs rs) :=
+  ⟨go_codes rs [], (go_refs rs []).1, go_pointwise rs []⟩
+
+/-- …and every component some response of the operation refers to is the type of one of its definitions (the first
+status code that refers to it, by the theorem above no other): the component is not replaced by copies throughout. -/
+theorem C12_component_response_used (rs : List RIn) (r : RIn) (t : Str) (hr : r ∈ rs) (ht : r.ref = some t) :
+    ∃ o ∈ respDefs rs, o.ref = some t :=
+  go_takes rs [] r t hr ht (by simp)
+
+/-- non-vacuity: 401 and 403 → one component response: the first is the component, the second gets a type of its own -/
+example : respDefs [⟨[50], none⟩, ⟨[52, 48, 49], some [69]⟩, ⟨[52, 48, 51], some [69]⟩, ⟨[53], some [70]⟩] =
+    [⟨[50], none⟩, ⟨[52, 48, 49], some [69]⟩, ⟨[52, 48, 51], none⟩, ⟨[53], some [70]⟩] := by decide
+
+end OapiVerif.RespDefs
